@@ -732,6 +732,24 @@ def do_grpc(results):
                         add(sname, me["name"], "defaults-apply", s and near(s["deadline"], 30.0) and s["metadata"].get("x-level") == "stub", s, cardinality=me["card"])
                         s = await one({}, {})
                         add(sname, me["name"], "no-deadline-by-default", s is not None and s["deadline"] is None, s, cardinality=me["card"])
+
+                        # ---- several calls on ONE stub: a per-call option applies to that call only
+                        async def seq(stub_kw, *calls):
+                            st_ = Stub(channel, **stub_kw)
+                            out = []
+                            for call_kw in calls:
+                                seen_streams.clear()
+                                await guarded(invoke(st_, me, sname_py, reqs, False, **call_kw))
+                                out.append(seen_streams[-1] if seen_streams else None)
+                            return out
+                        r = await seq({"metadata": {"x-level": "stub"}, "timeout": 50.0}, {"metadata": {"x-level": "call"}, "timeout": 5.0}, {}, {"metadata": {}}, {})
+                        ok = (all(x is not None for x in r) and r[0]["metadata"].get("x-level") == "call" and near(r[0]["deadline"], 5.0)
+                              and r[1]["metadata"].get("x-level") == "stub" and near(r[1]["deadline"], 50.0)
+                              and "x-level" not in r[2]["metadata"] and r[3]["metadata"].get("x-level") == "stub" and near(r[3]["deadline"], 50.0))
+                        add(sname, me["name"], "per-call-options-do-not-stick-to-the-stub", ok, r, cardinality=me["card"])
+                        r = await seq({}, {"timeout": 5.0, "metadata": {"x-level": "call"}}, {})
+                        ok = (all(x is not None for x in r) and near(r[0]["deadline"], 5.0) and r[1]["deadline"] is None and "x-level" not in r[1]["metadata"])
+                        add(sname, me["name"], "per-call-options-do-not-stick-to-a-bare-stub", ok, r, cardinality=me["card"])
                     except Exception as e:
                         add(sname, me["name"], "precedence", False, short_exc(e), cardinality=me["card"])
         except Exception as e:
